@@ -41,7 +41,12 @@ Fold(n, cells) == [k |-> "fold", n |-> n, v |-> cells]
 \* result record of a call: new lo/hi, result, the item indices yielded (in order), consumed?
 IR(lo, hi, res, y, done) == [lo |-> lo, hi |-> hi, res |-> res, y |-> y, done |-> done]
 
-IterOps == {"next", "next_back", "nth", "nth_back", "len", "count", "last", "fold", "rfold", "index", "num_cols"}
+IterOps == {"next", "next_back", "nth", "nth_back", "len", "count", "last", "fold", "rfold", "index", "num_cols",
+            "find", "rfind", "try_fold", "try_rfold", "position", "rposition", "for_each", "rev_for_each"}
+\* The provided methods of Iterator / DoubleEndedIterator mean what they mean for the ideal sequence, whether the
+\* library inherits them or overrides them.  The harness's predicate / closure stops at its (n+1)-th invocation, so
+\* find, try_fold == nth;  rfind, try_rfold == nth_back;  position / rposition consume alike but return an index;
+\* for_each == fold;  rev().for_each == rfold.
 
 IterApply(w, kind, lo, hi, op, a) ==
     LET rem == hi - lo IN
@@ -49,17 +54,21 @@ IterApply(w, kind, lo, hi, op, a) ==
                              ELSE IR(lo, hi, None, << >>, FALSE)
       [] op = "next_back" -> IF rem > 0 THEN IR(lo, hi - 1, ItemRes(w, kind, hi), <<hi>>, FALSE)
                              ELSE IR(lo, hi, None, << >>, FALSE)
-      [] op = "nth"       -> IF ~IsBig(a.n) /\ a.n < rem
+      [] op \in {"nth", "find", "try_fold"} -> IF ~IsBig(a.n) /\ a.n < rem
                              THEN IR(lo + a.n + 1, hi, ItemRes(w, kind, lo + a.n + 1), <<lo + a.n + 1>>, FALSE)
                              ELSE IR(hi, hi, None, << >>, FALSE)                      \* exhausted
-      [] op = "nth_back"  -> IF ~IsBig(a.n) /\ a.n < rem
+      [] op \in {"nth_back", "rfind", "try_rfold"} -> IF ~IsBig(a.n) /\ a.n < rem
                              THEN IR(lo, hi - a.n - 1, ItemRes(w, kind, hi - a.n), <<hi - a.n>>, FALSE)
                              ELSE IR(lo, lo, None, << >>, FALSE)
       [] op = "len"       -> IR(lo, hi, Val(rem), << >>, FALSE)                        \* len() and both size_hint bounds
       [] op = "count"     -> IR(hi, hi, Val(rem), << >>, TRUE)
       [] op = "last"      -> IF rem > 0 THEN IR(hi, hi, ItemRes(w, kind, hi), <<hi>>, TRUE) ELSE IR(lo, hi, None, << >>, TRUE)
-      [] op = "fold"      -> IR(hi, hi, Fold(rem, CellsOfRange(w, kind, lo + 1, hi)), [i \in 1..rem |-> lo + i], TRUE)
-      [] op = "rfold"     -> IR(lo, lo, Fold(rem, CellsOfRangeRev(w, kind, lo + 1, hi)), [i \in 1..rem |-> hi + 1 - i], TRUE)
+      [] op = "position"  -> IF ~IsBig(a.n) /\ a.n < rem THEN IR(lo + a.n + 1, hi, Val(a.n), << >>, FALSE)
+                             ELSE IR(hi, hi, None, << >>, FALSE)
+      [] op = "rposition" -> IF ~IsBig(a.n) /\ a.n < rem THEN IR(lo, hi - a.n - 1, Val(rem - 1 - a.n), << >>, FALSE)
+                             ELSE IR(lo, lo, None, << >>, FALSE)
+      [] op \in {"fold", "for_each"} -> IR(hi, hi, Fold(rem, CellsOfRange(w, kind, lo + 1, hi)), [i \in 1..rem |-> lo + i], TRUE)
+      [] op \in {"rfold", "rev_for_each"} -> IR(lo, lo, Fold(rem, CellsOfRangeRev(w, kind, lo + 1, hi)), [i \in 1..rem |-> hi + 1 - i], TRUE)
       [] op = "index"     -> IF ~IsBig(a.n) /\ a.n < rem THEN IR(lo, hi, Some(ItemCells(w, kind, lo + a.n + 1)[1]), << >>, FALSE)
                              ELSE IR(lo, hi, Panic, << >>, FALSE)
       [] op = "num_cols"  -> IR(lo, hi, Val(NC(w)), << >>, FALSE)
